@@ -122,6 +122,10 @@ func stableName(o *Obligation) (string, bool) {
 	case "safety", "cover", "unsupported":
 		return "", false
 	}
+	if strings.HasPrefix(o.Kind, "safety") {
+		// named after SSA registers: any edit of the function renumbers them
+		return "", false
+	}
 	return o.Name, true
 }
 
